@@ -197,13 +197,24 @@ def d3_delivery(ctx):
 
 
 def d4_stamps(ctx, rule="D4"):
-    f = ctx.fn(PUP, rule)
+    f = liveness_stamp(ctx, rule)
     if not f:
         return
     pa = ctx.pa(f)
     cfg = ctx.cfg(f)
     fa = pa.fa
     conn = up(f, "conn")
+    proof_stamps(ctx, rule, f, pa, cfg, fa, conn)
+
+
+def liveness_stamp(ctx, rule="D4"):
+    """Every datagram that is not a registration reply refreshes `last_received` (shared with C08.D2: a link that keeps hearing
+    anything - data, ACKs, keepalive echoes with or without an RTT sample - is never declared silent)."""
+    f = ctx.fn(PUP, rule)
+    if not f:
+        return None
+    pa = ctx.pa(f)
+    fa = pa.fa
     # every non-registration path stamps last_received := Some(now)
     stamps = []
     for (bb, si, s) in field_stores(f, CONN, "last_received"):
@@ -218,6 +229,12 @@ def d4_stamps(ctx, rule="D4"):
     none = pa2.is_atom(("is", pt, "None"))
     ok = bool(stamps) and pa2.entails(pa2.pc_return(), pa2.bdd.OR(reg, none))
     ctx.chk.ob(rule, "every datagram of >= 2 bytes that is not a registration reply refreshes the liveness stamp", ok, "%d stamp sites" % len(stamps), key="%s:liveness-stamp" % rule)
+    return f
+
+
+def proof_stamps(ctx, rule, f, pa, cfg, fa, conn):
+    data = up(f, "data")
+    pt = ("call", "srtla_protocol::get_packet_type", (data,), None, "srtla_protocol::types::get_packet_type")
     # delivery proof: non-zero only at the two sites
     eff = ctx.eff
     fld = "last_ack_or_rtt_sample_ms"
